@@ -53,7 +53,7 @@ func crashEnum(c *vx.Ctx, report []string) {
 	bases = append(bases,
 		base{"mirror", nil, []string{"SME", "RP:ok", "SMN:h", "RP:ok", "SMN:h", "RP:ok", "SMN:h", "RP:ok"}},
 		base{"mirror", nil, []string{"SME", "PH:A", "RP:ok", "SMN:h", "PH:A", "V:p:0:A", "V:p:1:A", "RP:ok", "SMN:h", "RP:ok"}})
-	mirrorDevs := []string{"5:+V:c:3:nil", "17:+V:p:3:A@0,2", "9:+V:p:3:A:zerosig", "9:+PH:B", "20:+V:c:3:B", "24:+V:p:3:nil@0,1", "2:+V:c:h:A@1,0", "10:+RP:ok"}
+	mirrorDevs := []string{"5:-", "5:+V:c:3:nil", "17:+V:p:3:A@0,2", "9:+V:p:3:A:zerosig", "9:+PH:B", "20:+V:c:3:B", "24:+V:p:3:nil@0,1", "2:+V:c:h:A@1,0", "10:+RP:ok"}
 	nodeDevs := []string{"3:+V:c:3:nil", "9:+PH:B", "10:+V:p:3:A@0,2", "12:+V:p:3:A:zerosig", "18:+V:p:3:nil@0,1", "26:+RP:ok", "2:~SR:nil", "16:~SR:propose", "4:+V:c:oh:A@1,0"}
 	if !c.Quick() {
 		for _, d := range singleDeviations(benignScript(), alphabet("core")) {
